@@ -150,7 +150,7 @@ fn main() {
     let mut rep = Report::new("C08", &cli);
     rep.note("rule", json!("case = pair of valid boxes (sizes 0.1..1e3, coordinates up to 1e4, angle None/0/k*pi/2/|angle|>2pi/random) from families general / identical / almost-identical (GitHub #84) / nested / touching-edge-sharing / right-angle-cross / around-the-too_far-radius / axis-aligned. Reference: f64 convex intersection by vertex-inclusion + edge-crossing collection (not Sutherland-Hodgman) on the exact f32 parameters. Checked: intersection area, IoU = I/(A1+A2-I), range, symmetry, identical=1, presence/absence (only when clearly overlapping / clearly separated), rigid-motion invariance, closed-form axis-aligned agreement, too_far soundness, same through VisualObservationAttributes and sutherland_hodgman_clip; every 4th pair is also evaluated with the first box brought to its parameters AFTER gen_vertices() had cached its polygon in an earlier state (through rotate_mut: all entry points; through public field writes: the entry points that copy their arguments). Non-trivial: reference overlap strictly between 1% and 99% of the smaller box; distinct by parameter bits."));
     rep.note("assumptions", json!(["area tolerance = 1e-6*min(A1,A2) + 4e-16*(coordinate scale)^2 (the latter is the f64 cancellation floor of cross products at that offset from the origin, scaled) ", "IoU judged to 1e-5 (the library's EPS)", "presence/absence judged only when reference overlap > 1e-4*min area or separation > 1e-4*size"]));
-    let n = cli.cases(200_000, 20_000_000);
+    let n = cli.cases(2_000_000, 40_000_000);
     for idx in cli.index_range(n) {
         let mut rng = Rng::for_case(cli.seed, cli.shard, idx);
         let (a, b, fam) = gen_pair(&mut rng);
